@@ -211,8 +211,17 @@ impl Running {
 // ---------------------------------------------------------------------------------------------
 
 pub fn proxy_v1(src: SocketAddr, dst: SocketAddr) -> Vec<u8> {
-    let fam = if src.is_ipv4() { "TCP4" } else { "TCP6" };
-    format!("PROXY {fam} {} {} {} {}\r\n", src.ip(), dst.ip(), src.port(), dst.port()).into_bytes()
+    // both addresses of a v1 header belong to the same family
+    match (src.ip(), dst.ip()) {
+        (IpAddr::V4(s), IpAddr::V4(d)) => format!("PROXY TCP4 {s} {d} {} {}\r\n", src.port(), dst.port()).into_bytes(),
+        (s, d) => {
+            let to6 = |a: IpAddr| match a {
+                IpAddr::V6(x) => x,
+                IpAddr::V4(x) => x.to_ipv6_mapped(),
+            };
+            format!("PROXY TCP6 {} {} {} {}\r\n", to6(s), to6(d), src.port(), dst.port()).into_bytes()
+        }
+    }
 }
 
 const V2_SIG: [u8; 12] = [0x0D, 0x0A, 0x0D, 0x0A, 0x00, 0x0D, 0x0A, 0x51, 0x55, 0x49, 0x54, 0x0A];
